@@ -164,3 +164,10 @@ Proof. vm_compute. repeat split; discriminate. Qed.
 Example C10_source_tie :
   map fst (build_env sample_cfg sample_target (s "/tmp/b") sample_caller) = flat_map inst (map snd Gen.C10Env.env_keys).
 Proof. exact env_keys_tie. Qed.
+
+(* The exec model follows the source as well: the statements of ExecCommand / ExecWithTimeout that set the command's
+   environment, translated by gotrans on every run, interpret to the model's cmd_env - for every mode, sandbox
+   configuration, caller and list. *)
+Example C10_exec_source_tie : forall mode uid net mount caller e,
+  interp_env_prog Gen.C10Env.exec_env_prog mode uid net mount caller e [] = Some (cmd_env mode uid net mount e).
+Proof. exact exec_env_prog_ok. Qed.
